@@ -46,6 +46,8 @@ type c11Prog struct {
 	Inject   string // strace inject expression for signalled runs
 	OutFile  bool
 	RootDir  string
+	NameOf   map[int]string // table number -> file name
+	Fault    bool           // a system call is made to fail (strace inject=...:error=...)
 }
 
 type c11Obs struct {
@@ -58,6 +60,7 @@ type c11Obs struct {
 	Same   bool
 	Counts map[string]int
 	OutLeft bool
+	Calls  []rawCall
 }
 
 var c11Tables = map[string]int{"t1.csv": 1, "t2.csv": 2, "t3.csv": 3, "n1.csv": 11, "n2.csv": 12, "nosuch.csv": 9}
@@ -243,6 +246,117 @@ func p_nameOf(t int) string {
 	panic("table")
 }
 
+func (p *c11Prog) nameOf(t int) string {
+	if n, ok := p.NameOf[t]; ok {
+		return n
+	}
+	for n, i := range p.Tables {
+		if i == t {
+			return n
+		}
+	}
+	return ""
+}
+
+// isNew: the table does not exist before the run (the program may create it)
+func (p *c11Prog) isNew(t int) bool { _, ok := p.Init[p.nameOf(t)]; return !ok }
+
+// the three name-length classes of the control files of a table file name of n bytes (NAME_MAX 255):
+// ".NAME.lock"/".NAME.temp" = n+6, ".NAME.<12 chars>.rlock" = n+20
+func lockTooLong(n int) bool  { return n+6 > 255 }
+func rlockTooLong(n int) bool { return n+20 > 255 }
+
+// c11GenLong: tables whose file names are so long that the names of their control files do not fit
+// into a directory entry (255 bytes): ".NAME.lock" / ".NAME.temp" need len+6, ".NAME.<12>.rlock" len+20
+func c11GenLong(r *rand.Rand, id int) *c11Prog {
+	p := &c11Prog{Id: id, Scenario: "longname", Tables: map[string]int{"t1.csv": 1}, Init: map[string]string{},
+		Foreign: map[string]string{}, LB: []byte("\n"), NameOf: map[int]string{1: "t1.csv"}, Args: []string{"-w", "0.3"}}
+	mk := func(n int, ch byte) string { return strings.Repeat(string(ch), n-4) + ".csv" }
+	exLens := []int{228, 235, 236, 237, 243, 249, 250, 251, 255}
+	newLens := []int{230, 235, 236, 249, 250, 255}
+	p.Init["t1.csv"] = "k,v\n1,w1\n2,w2\n"
+	var existing []int
+	for i := 0; i < 3; i++ {
+		n := mk(exLens[r.Intn(len(exLens))], byte('a'+i))
+		p.Tables[n], p.NameOf[21+i] = 21+i, n
+		p.Init[n] = fmt.Sprintf("k,v\n1,l%d\n", i)
+		existing = append(existing, 21+i)
+	}
+	existing = append(existing, 1)
+	for i := 0; i < 2; i++ {
+		n := mk(newLens[r.Intn(len(newLens))], byte('x'+i))
+		p.Tables[n], p.NameOf[31+i] = 31+i, n
+	}
+	q := func(t int) string { return "`" + p.NameOf[t] + "`" }
+	nst := 1 + r.Intn(4)
+	created := 0
+	readonly := r.Intn(3) == 0
+	for i := 0; i < nst; i++ {
+		t := existing[r.Intn(len(existing))]
+		c := r.Intn(8)
+		if readonly {
+			c = 0
+		}
+		switch {
+		case c < 3:
+			p.Stmts = append(p.Stmts, c11Stmt{"SELECT * FROM " + q(t) + ";", "read", t})
+		case c < 5:
+			p.Stmts = append(p.Stmts, c11Stmt{fmt.Sprintf("INSERT INTO %s VALUES (%d, 'n%d');", q(t), 100+i, i), "update", t})
+		case c < 6:
+			p.Stmts = append(p.Stmts, c11Stmt{"DELETE FROM " + q(t) + " WHERE k = 999;", "noop", t})
+		default:
+			if created < 2 {
+				t = 31 + created
+				created++
+				p.Stmts = append(p.Stmts, c11Stmt{"CREATE TABLE " + q(t) + " (a, b);", "create", t})
+				if r.Intn(2) == 0 {
+					p.Stmts = append(p.Stmts, c11Stmt{"INSERT INTO " + q(t) + " VALUES (1, 'z');", "update", t})
+				}
+			} else {
+				p.Stmts = append(p.Stmts, c11Stmt{"SELECT COUNT(*) FROM " + q(t) + ";", "read", t})
+			}
+		}
+	}
+	if r.Intn(2) == 0 {
+		p.Args = append(p.Args, "-q")
+	}
+	return p
+}
+
+// c11Corpus: fixed programs around COMMIT / ROLLBACK in the middle of a program (run in every tier)
+func c11Corpus(id int) []*c11Prog {
+	init := map[string]string{"t1.csv": "k,v\n1,a\n2,b\n", "t2.csv": "k,v\n1,c\n", "t3.csv": "k,v\n1,d\n2,e\n3,f\n"}
+	rd := func(t int) c11Stmt { return c11Stmt{fmt.Sprintf("SELECT * FROM t%d;", t), "read", t} }
+	up := func(t int) c11Stmt { return c11Stmt{fmt.Sprintf("UPDATE t%d SET v = 'x%d';", t, t), "update", t} }
+	no := func(t int) c11Stmt { return c11Stmt{fmt.Sprintf("DELETE FROM t%d WHERE k = 999;", t), "noop", t} }
+	cr := func(t int) c11Stmt { return c11Stmt{fmt.Sprintf("CREATE TABLE `n%d.csv` (a, b);", t-10), "create", t} }
+	in := func(t int) c11Stmt { return c11Stmt{fmt.Sprintf("INSERT INTO `n%d.csv` VALUES (1, 'y');", t-10), "update", t} }
+	co := c11Stmt{"COMMIT;", "commit", 0}
+	ro := c11Stmt{"ROLLBACK;", "rollback", 0}
+	ex := c11Stmt{"EXIT;", "exit", 0}
+	lists := [][]c11Stmt{
+		{no(1), co, up(2)},
+		{no(1), co, no(1), co, rd(1)},
+		{rd(1), co, up(1)},
+		{up(1), co, no(1), ro, rd(1)},
+		{cr(11), ro, cr(11), in(11)},
+		{no(1), ro, up(2), co, rd(2), ex},
+		{up(1), no(2), rd(3), co, rd(3), no(3), up(2)},
+		{cr(11), in(11), no(1), co, up(1), cr(12), ex},
+		{no(1), no(2), no(3), co, cr(11)},
+		{rd(1), rd(2), co, ro, no(2)},
+	}
+	var out []*c11Prog
+	for i, l := range lists {
+		p := &c11Prog{Id: id + i, Scenario: "corpus", Stmts: l, Tables: c11Tables, Init: init, Foreign: map[string]string{}, LB: []byte("\n")}
+		if i%2 == 1 {
+			p.Args = []string{"-q"}
+		}
+		out = append(out, p)
+	}
+	return out
+}
+
 func (p *c11Prog) text() string {
 	var s []string
 	for _, st := range p.Stmts {
@@ -306,6 +420,9 @@ func (p *c11Prog) run(tag string, inject string) c11Obs {
 	calls := parseStrace(string(b))
 	tr := traceToOps(calls, n)
 	o := c11Obs{P: p, Ops: tr.Ops, S0: s0, Snap: snapshotDir(n), Res: res, Trace: tr, Same: true, Counts: map[string]int{}}
+	if p.Fault && inject == "" {
+		o.Calls = calls
+	}
 	for _, c := range calls {
 		o.Counts[c.Name]++
 	}
@@ -344,13 +461,23 @@ func dedupInts(l []int) []int {
 
 // segments: seg[i] = what happened after the i-th successful lock-file creation of a statement and
 // before the next one (seg[0] = before the first)
-func c11Segments(ops []fsOp) []c11Seg {
+type c11Retry struct{ tbl, pos int }
+
+// c11Segments also returns the failed read-lock attempts it skipped: create lock(t), close lock(t),
+// remove lock(t) directly after one another, with pos = number of lock files made by statements before
+func c11Segments(ops []fsOp) ([]c11Seg, []c11Retry) {
 	segs := []c11Seg{{body: map[fsPath][]byte{}}}
+	var retries []c11Retry
 	cur := &segs[0]
 	var lastTrunc *fsPath
-	for i := range ops {
+	for i := 0; i < len(ops); i++ {
 		o := ops[i]
 		if o.Kind == "create" && o.P.Kind == kLock {
+			if i+2 < len(ops) && ops[i+1].Kind == "close" && ops[i+1].P == o.P && ops[i+2].Kind == "remove" && ops[i+2].P == o.P {
+				retries = append(retries, c11Retry{o.P.Tbl, len(segs) - 1})
+				i += 2
+				continue
+			}
 			segs = append(segs, c11Seg{body: map[fsPath][]byte{}})
 			cur = &segs[len(segs)-1]
 			lastTrunc = nil
@@ -376,7 +503,7 @@ func c11Segments(ops []fsOp) []c11Seg {
 			cur.ordr = append(cur.ordr, o.P.Tbl)
 		}
 	}
-	return segs
+	return segs, retries
 }
 
 type c11Model struct {
@@ -389,7 +516,17 @@ type c11Model struct {
 // translate simulates which statements acquire a lock file (to find the trace segment of every
 // COMMIT / ROLLBACK) and renders the actions
 func (p *c11Prog) translate(o c11Obs) c11Model {
-	segs := c11Segments(o.Ops)
+	segs, retries := c11Segments(o.Ops)
+	nRetries := func(t, pos int) int {
+		n := 0
+		for _, r := range retries {
+			if r.tbl == t && r.pos == pos {
+				n++
+			}
+		}
+		return n
+	}
+	nameLen := func(t int) int { return len(p.nameOf(t)) }
 	seg := func(i int) c11Seg {
 		if i < len(segs) {
 			return segs[i]
@@ -437,10 +574,13 @@ func (p *c11Prog) translate(o c11Obs) c11Model {
 	setBodies := func(s c11Seg) {
 		for _, pd := range pending {
 			pth := fsPath{Kind: kTemp, Tbl: pd.tbl}
-			if pd.tbl >= 11 { // tables created by the transaction are written in place
+			if p.isNew(pd.tbl) { // tables created by the transaction are written in place
 				pth = fsPath{Kind: kData, Tbl: pd.tbl}
 			}
-			b := s.body[pth]
+			b, seen := s.body[pth]
+			if !seen {
+				b = []byte("?") // never written in this run: any non-empty payload (an empty one would issue no write call)
+			}
 			acts[pd.idx] = strings.Replace(acts[pd.idx], "BODY", coqBytes(b), 1)
 		}
 		pending = nil
@@ -452,6 +592,18 @@ func (p *c11Prog) translate(o c11Obs) c11Model {
 		t := st.Tbl
 		switch st.Kind {
 		case "read", "readerr", "missread":
+			if !(held[t] || ro[t]) && exists[t] && !blockedRead[t] {
+				// failed attempts to make the read lock (the .rlock name does not fit, or an injected failure)
+				if n := nRetries(t, acq); n > 0 {
+					acts = append(acts, fmt.Sprintf("ARetryRead %d%%N %d%%nat", t, n))
+				}
+				if lockTooLong(nameLen(t)) || rlockTooLong(nameLen(t)) {
+					acts = append(acts, fmt.Sprintf("ARead %d%%N (Some 0%%nat)", t)) // waits until the timeout
+					ended = true
+					m.Blocked = true
+					break
+				}
+			}
 			acts = append(acts, fmt.Sprintf("ARead %d%%N None", t))
 			if !(held[t] || ro[t]) {
 				if !exists[t] || blockedRead[t] {
@@ -470,6 +622,12 @@ func (p *c11Prog) translate(o c11Obs) c11Model {
 			nb := "None"
 			if st.Kind == "update" {
 				nb = "(Some BODY)"
+			}
+			if !held[t] && exists[t] && lockTooLong(nameLen(t)) {
+				acts = append(acts, fmt.Sprintf("AUpdate %d%%N None (Some 0%%nat)", t)) // the .lock name does not fit: waits until the timeout
+				ended = true
+				m.Blocked = true
+				break
 			}
 			acts = append(acts, fmt.Sprintf("AUpdate %d%%N %s None", t, nb))
 			if st.Kind == "update" {
@@ -493,6 +651,11 @@ func (p *c11Prog) translate(o c11Obs) c11Model {
 			f := "None"
 			if st.Kind == "createerr" {
 				f = "(Some 2%nat)"
+			}
+			if !exists[t] && !blockedCreate[t] && lockTooLong(nameLen(t)) {
+				acts = append(acts, fmt.Sprintf("ACreate %d%%N [] (Some 0%%nat)", t)) // the .lock file cannot be made
+				ended = true
+				break
 			}
 			acts = append(acts, fmt.Sprintf("ACreate %d%%N BODY %s", t, f))
 			pending = append(pending, pend{len(acts) - 1, t, true})
@@ -531,14 +694,14 @@ func (p *c11Prog) translate(o c11Obs) c11Model {
 	last := segs[len(segs)-1] // what the end of the run (auto-COMMIT, deferred release) did
 	setBodies(last)
 	for i := range acts {
-		acts[i] = strings.Replace(acts[i], "BODY", "[]", 1)
+		acts[i] = strings.Replace(acts[i], "BODY", "[63]%N", 1)
 	}
 	m.Prog = "[" + strings.Join(acts, "; ") + "]"
 	m.Fin = fmt.Sprintf("ACommit %s %s %s None", coqNs(dedupInts(last.ordc)), coqNs(dedupInts(last.ordu)), coqNs(dedupInts(last.ordi)))
 	m.Ord = coqNs(dedupInts(last.ordr))
 	m.Show = acts
 	sort.Ints(createdNow)
-	if p.Signal != "" {
+	if p.Signal != "" || p.Fault {
 		m.AllNone = createdNow
 	} else if ended {
 		m.Absent = createdNow
@@ -550,14 +713,14 @@ var c11RenameOver bool
 
 func (p *c11Prog) coqCase(id int, o c11Obs, m c11Model, readonly bool) string {
 	return fmt.Sprintf("mkPC %d%%N (mkCfg "+coqBool(c11RenameOver)+" %s)\n  %s\n  %s\n  (%s) %s %s\n  %s\n  %s\n  %s %s %s %s",
-		id, coqBytes(p.LB), o.S0.coq(), m.Prog, m.Fin, m.Ord, coqBool(p.Signal != ""),
+		id, coqBytes(p.LB), o.S0.coq(), m.Prog, m.Fin, m.Ord, coqBool(p.Signal != "" || p.Fault),
 		coqOps(o.Ops), o.Snap.coq(), coqNs(m.Absent), coqNs(m.AllNone), coqBool(readonly), coqBool(o.Same))
 }
 
 func runC11(seed int64, tier string, out string) {
 	r := rand.New(rand.NewSource(seed))
 	meta := newMeta("C11", seed)
-	meta.Rule = "programs generated from one seeded PRNG over t1..t3 (existing), n1/n2 (created), nosuch: SELECTs, effective and no-op UPDATE/INSERT/DELETE, CREATE TABLE (+INSERT), COMMIT, ROLLBACK; endings: success, syntax error, missing table (read/update), division by zero inside SELECT / UPDATE / CREATE TABLE AS SELECT, duplicate CREATE, EXIT, wait timeout (-w 0.4) against a hand-made .lock / .rlock / .temp of a competing holder, and SIGINT/SIGTERM/SIGQUIT injected by strace at the N-th call of a system call class (a spread of N in the quick tier, every N in the thorough tier); read-only programs additionally compare bytes and mtimes of every data file. Each run of build/csvq is one case; it is non-trivial when the run issued at least one mutating call on the repository; distinct = distinct (program, ending, injection point, observed trace) tuples."
+	meta.Rule = "programs generated from one seeded PRNG over t1..t3 (existing), n1/n2 (created), nosuch: SELECTs, effective and no-op UPDATE/INSERT/DELETE, CREATE TABLE (+INSERT), COMMIT, ROLLBACK; endings: success, syntax error, missing table (read/update), division by zero inside SELECT / UPDATE / CREATE TABLE AS SELECT, duplicate CREATE, EXIT, wait timeout (-w 0.4) against a hand-made .lock / .rlock / .temp of a competing holder, and SIGINT/SIGTERM/SIGQUIT injected by strace at the N-th call of a system call class (a spread of N in the quick tier, every N in the thorough tier); read-only programs additionally compare bytes and mtimes of every data file. Scenario corpus: ten fixed programs with COMMIT / ROLLBACK in the middle (what is held, released and re-acquired around them). Scenario longname: tables whose file names have 228..255 bytes, so that .NAME.<12>.rlock (from 236) or .NAME.lock/.NAME.temp (from 250) do not fit into a directory entry, read / updated / created with -w 0.3. Scenario fault: for a read-only program and several updating/creating/committing programs every repository-related openat and every write, ftruncate, renameat and flock is made to fail once (when=N) and from then on (when=N+) with ENOSPC/EACCES/EIO/ENAMETOOLONG by strace; runs with a failing renameat/flock are judged by model-free checks only (no control file left, tables complete old or new, no internal failure), all others also against the model (failure at any step). Each run of build/csvq is one case; it is non-trivial when the run issued at least one mutating call on the repository; distinct = distinct (program, ending, injection point, observed trace) tuples."
 	w := &shardWriter{dir: out, prop: "C11", max: 120, meta: meta,
 		header: "From Coq Require Import NArith List.\nRequire Import Csvq.Model.Base Csvq.Model.Fs Csvq.Model.Commit Csvq.Model.Cleanup Csvq.Harness.H11.\nOpen Scope list_scope.\n",
 		footer: func(ls []string) string {
@@ -594,6 +757,16 @@ func runC11(seed int64, tier string, out string) {
 			}
 			add(p)
 		}
+	}
+	for _, p := range c11Corpus(len(progs)) {
+		add(p)
+	}
+	nLong := 40
+	if tier == "thorough" {
+		nLong = 400
+	}
+	for i := 0; i < nLong; i++ {
+		add(c11GenLong(r, len(progs)))
 	}
 	nPlain := len(progs)
 	obs := make([]c11Obs, nPlain)
@@ -669,6 +842,131 @@ func runC11(seed int64, tier string, out string) {
 	all := append(append([]c11Obs{}, obs...), srefs...)
 	all = append(all, sobs...)
 
+	// failing system calls: a reference run lists the calls, then one run per (class, N, once|from N on)
+	nFault, fcap := 5, 10
+	if tier == "thorough" {
+		nFault, fcap = 16, 0
+	}
+	var fprogs []*c11Prog
+	for i := 0; i < nFault; i++ {
+		sc11 := "success"
+		if i == 0 {
+			sc11 = "readonly"
+		}
+		p := c11Gen(r, nPlain+len(sprogs)+i, sc11)
+		p.Scenario = "fault"
+		p.Fault = true
+		p.Args = append(p.Args, "-w", "0.3")
+		p.RootDir = sc.Path(fmt.Sprintf("f%d", i))
+		_ = os.MkdirAll(p.RootDir, 0755)
+		fprogs = append(fprogs, p)
+	}
+	frefs := make([]c11Obs, len(fprogs))
+	parallelDo(len(fprogs), 16, func(i int) { frefs[i] = fprogs[i].run("ref", "") })
+	fclasses := []string{"openat", "write", "ftruncate", "renameat", "flock"}
+	errnos := []string{"ENOSPC", "EACCES", "EIO", "ENAMETOOLONG"}
+	type fjob struct {
+		p      *c11Prog
+		ref    int
+		inject string
+		tag    string
+	}
+	var fjobs []fjob
+	for i, p := range fprogs {
+		repo := filepath.Join(p.RootDir, "ref")
+		for ci, c := range fclasses {
+			first, total := 0, 0
+			for _, call := range frefs[i].Calls {
+				if call.Name != c {
+					continue
+				}
+				total++
+				if first == 0 {
+					if c != "openat" {
+						first = total
+					} else if strs, _ := hexStrings(call.Args); len(strs) > 0 && strings.HasPrefix(strs[0], repo) {
+						first = total
+					}
+				}
+			}
+			if first == 0 {
+				continue
+			}
+			var ns []int
+			for n := first; n <= total; n++ {
+				ns = append(ns, n)
+			}
+			if fcap > 0 && len(ns) > fcap { // an even spread that keeps both ends
+				var sel []int
+				for k := 0; k < fcap; k++ {
+					sel = append(sel, ns[k*(len(ns)-1)/(fcap-1)])
+				}
+				ns = dedupInts(sel)
+			}
+			for _, n := range ns {
+				e := errnos[(ci+n)%len(errnos)]
+				fjobs = append(fjobs, fjob{p, i, fmt.Sprintf("%s:error=%s:when=%d", c, e, n), fmt.Sprintf("%s_%d_once", c, n)})
+				fjobs = append(fjobs, fjob{p, i, fmt.Sprintf("%s:error=%s:when=%d+", c, e, n), fmt.Sprintf("%s_%d_on", c, n)})
+			}
+		}
+	}
+	fobs := make([]c11Obs, len(fjobs))
+	parallelDo(len(fjobs), 16, func(j int) {
+		q := *fjobs[j].p
+		q.Inject = fjobs[j].inject
+		ob := q.run(fjobs[j].tag, fjobs[j].inject)
+		mu.Lock()
+		ob.P = &q
+		fobs[j] = ob
+		mu.Unlock()
+	})
+	all = append(all, frefs...)
+	// checks that need no model: whatever call failed, csvq must not fail internally, every table that
+	// existed holds its complete old or complete new contents, a created table is absent or complete;
+	// runs in which a renameat or flock was made to fail are outside the model (Cleanup.v assumes that
+	// renaming / locking a file the process holds succeeds) and are judged here only
+	for j, o := range fobs {
+		p := o.P
+		ref := frefs[fjobs[j].ref]
+		cinfo := map[string]interface{}{"program": p.text(), "args": p.Args, "inject": p.Inject, "calls_made_to_fail": o.Trace.Injected,
+			"observed_calls": showOps(o.Ops), "directory_found": o.Snap.show(), "exit": o.Res.Code, "stderr": o.Res.Stderr[:minInt(300, len(o.Res.Stderr))]}
+		if m := internalFailure(o.Res); m != "" && m != "timeout" {
+			meta.Direct = append(meta.Direct, DirectViolation{Key: "fault-internal-failure", What: "a failing system call made csvq fail internally (" + m + ")", Case: cinfo})
+		}
+		for pth, c := range o.Snap.Files {
+			if pth.Kind != kData {
+				continue
+			}
+			if string(c) != string(ref.Snap.Files[pth]) && (p.isNew(pth.Tbl) || string(c) != string(o.S0.Files[pth])) {
+				meta.Direct = append(meta.Direct, DirectViolation{Key: "fault-table-incomplete", What: fmt.Sprintf("after a failing system call table %s holds neither its complete old nor its complete new contents", p.nameOf(pth.Tbl)), Case: cinfo})
+			}
+		}
+		for pth := range o.S0.Files {
+			if _, ok := o.Snap.Files[pth]; !ok && pth.Kind == kData {
+				meta.Direct = append(meta.Direct, DirectViolation{Key: "fault-table-lost", What: fmt.Sprintf("after a failing system call table %s does not exist any more", p.nameOf(pth.Tbl)), Case: cinfo})
+			}
+		}
+		class := strings.SplitN(p.Inject, ":", 2)[0]
+		goOnly := (class == "renameat" || class == "flock") && len(o.Trace.Injected) > 0
+		meta.Distribution["failing call: "+class]++
+		if !goOnly {
+			all = append(all, o)
+			continue
+		}
+		meta.Evaluations++
+		meta.Distribution["judged without the model (failing "+class+")"]++
+		for pth := range o.Snap.Files {
+			if _, was := o.S0.Files[pth]; pth.Kind != kData && !was {
+				key := "fault-leftover-control-file"
+				if class == "flock" {
+					key = "flock-failure-leaves-control-file"
+				}
+				meta.Direct = append(meta.Direct, DirectViolation{Key: key, What: fmt.Sprintf("after a failing %s the run left the control file %s behind", class, pth), Case: cinfo})
+				break
+			}
+		}
+	}
+
 	// which COMMIT variant does the tree implement?  rename over the table (repaired) unless some run
 	// removes a table file directly before renaming its temporary file to the same path
 	c11RenameOver = true
@@ -709,7 +1007,7 @@ func runC11(seed int64, tier string, out string) {
 		// a wall-clock stall under load can make an unblocked acquisition hit the (short) wait timeout
 		// of the timeout scenario; only timeouts the directory explains are modelled: such a run is
 		// repeated (a genuine, repeatable spurious timeout is still reported)
-		for try := 0; try < 2 && !m.Blocked && (strings.Contains(o.Res.Stderr, "deadline exceeded") || strings.Contains(o.Res.Stderr, "timeout")); try++ {
+		for try := 0; try < 2 && !m.Blocked && !p.Fault && (strings.Contains(o.Res.Stderr, "deadline exceeded") || strings.Contains(o.Res.Stderr, "timeout")); try++ {
 			meta.Distribution["repeated after an unexplained wait timeout"]++
 			o = p.run(fmt.Sprintf("retry%d", try), p.Inject)
 			o.P = p
@@ -720,8 +1018,11 @@ func runC11(seed int64, tier string, out string) {
 		if p.Signal != "" {
 			ending = p.Scenario + " " + p.Signal
 		}
+		if p.Fault && p.Inject != "" {
+			ending = "failing " + strings.SplitN(p.Inject, ":", 2)[0]
+		}
 		c := map[string]interface{}{"scenario": ending, "program": p.text(), "args": p.Args, "competing_holder_files": p.Foreign,
-			"inject": p.Inject, "actions": m.Show, "observed_calls": showOps(o.Ops), "directory_before": o.S0.show(),
+			"inject": p.Inject, "calls_made_to_fail": o.Trace.Injected, "actions": m.Show, "observed_calls": showOps(o.Ops), "directory_before": o.S0.show(),
 			"directory_found": o.Snap.show(), "exit": o.Res.Code, "stderr": o.Res.Stderr[:minInt(200, len(o.Res.Stderr))],
 			"data_files_bytes_and_mtimes_unchanged": o.Same}
 		meta.Cases[fmt.Sprint(id)] = c
